@@ -223,6 +223,33 @@ def budgets(chk, crate):
     chk.floor("retry budgets checked", n, 2)
 
 
+def arith_mentions_config(e, depth=0):
+    """Does the *number* e derive from a configuration field through arithmetic, casts, copies and lossless
+    conversions only?  (A string that was received over a stream which was merely *created* with a configured
+    timeout is not a configuration value.)"""
+    if depth > 30:
+        return False
+    k = e[0]
+    if k == "call":
+        if e[1].endswith("TcpStream::config"):
+            return True
+        if e[1] in ("core::convert::From::from", "core::convert::Into::into", "core::clone::Clone::clone") and e[2]:
+            return arith_mentions_config(e[2][0], depth + 1)
+        return False
+    if k in ("path", "proj"):
+        flds = e[2]
+        if "feig_config" in flds or (k == "path" and e[1] == "config"):
+            return True
+        if k == "proj":
+            return arith_mentions_config(e[1], depth + 1)
+        return False
+    if k == "bin":
+        return arith_mentions_config(e[2], depth + 1) or arith_mentions_config(e[3], depth + 1)
+    if k in ("un", "cast", "ref"):
+        return arith_mentions_config(e[2] if k == "un" else e[1], depth + 1)
+    return False
+
+
 def overflow(chk, crate):
     n = 0
     for b in client_bodies(crate):
@@ -234,8 +261,7 @@ def overflow(chk, crate):
             x = t.get("x", "")
             ex = ex or Ex(b)
             a, c = ex.operand(t["ops"][0]), ex.operand(t["ops"][1])
-            from_cfg = any(y[0] == "call" and y[1].endswith("TcpStream::config") for y in list(walk(a)) + list(walk(c))) or \
-                any(y[0] in ("path", "proj") and ("config" in y[1:2] or "feig_config" in y[2]) for y in list(walk(a)) + list(walk(c)))
+            from_cfg = arith_mentions_config(a) or arith_mentions_config(c)
             where = b.raw.get("root", b.id).rsplit("::", 1)[-1]
             ty = ty_str(t.get("ty"))
             ia, ic = interval(a), interval(c)
